@@ -58,6 +58,12 @@ def cases(tier):
     rts = [R("absx", "int32_t", ["int32_t x"], "{ if (x > 0) { return x; } else { return -x; } }")]
     for st in ["r = absx(a);", "r = absx(a) + absx(b);", "r = absx(absx(a) - 5);"]:
         out.append((rts, P(d, st, ["r"]), ("if-else-return", st)))
+    # calls next to a folded-away call (the temporaries of the remaining calls must stay distinct), in a caller and in a body
+    for st in ["r = (0 ? absx(a) : absx(b)) + absx(a - b);", "r = (1 ? absx(a) : absx(b)) + absx(a - b) + absx(b);", "r = absx(a) + (0 ? absx(a) : clz32(b)) + absx(b);", "r = (0 ? clz32(a) : clo32(a)) + clz32(b);"]:
+        out.append((rts, P(d, st, ["r"]), ("folded-call", st)))
+    rts2 = [R("pick", "uint32_t", ["uint32_t x", "uint32_t y"], "{ return (0 ? clz32(x) : clo32(x)) + clz32(y); }")]
+    for st in ["r = pick(a, b);", "r = pick(a, b) + pick(b, a);"]:
+        out.append((rts2, P(d, st, ["r"]), ("folded-call-body", st)))
     rts = [R("early", "int32_t", ["int32_t x"], "{ if (x == 0) { return 77; } return x + 1; }")]
     for st in ["r = early(a);", "r = early(a) + early(b);"]:
         out.append((rts, P(d, st, ["r"]), ("early-return", st)))
